@@ -5,9 +5,13 @@ R1  TLC checks the theorems of the specifications themselves: the constructive q
     Combin.tla's constructive enumerations are the lexicographic ones and rank/unrank are mutually
     inverse and order preserving.
 R2  spec->code: TLC prints every history (bulk construction + insertions) over a small lattice with
-    the answers of all queries; the harness replays each on kdtree (kdtree.Points and a hand written
-    Comparable/Interface, every bounding mode) and vptree (several efforts) and compares exactly.
+    the answers of all queries; the harness replays each on kdtree (kdtree.Points and hand written user types:
+    Extender / plain Comparable elements in collections that are / are not Bounders; every bounding flag; the
+    specification says which mode - bounded, unbounded, stale - the tree is in and what its stored volumes must
+    satisfy) and vptree (vptree.Point and a user type, several efforts) and compares exactly.
     TLC prints the enumerations / index maps of Combin.tla; the harness compares stat/combin with them.
+    CombinBig.tla does the same beyond 32 bits (its own digit-sequence arithmetic, checked against TLC's integers;
+    closed index formulas checked against the explicit enumerations for small n, then used for n <= 20 / 62 / 2^63).
 R3  code->spec: Hilbert tables and answers of the real trees on large lattice point sets are
     recorded and judged by TLC against HilbertTrace.tla / SpatialIndexTrace.tla.
 Barnes-Hut: BarnesHut.tla (single particle lists, theta = 0) and BarnesHutHist.tla (histories of one Plane / Volume
@@ -70,7 +74,10 @@ INDEX = [
 ]
 KS = [1, 2, 3, 5]
 RS = [0, 1, 2, 4, 5, 8, 9, 13, 16, 25, 36]
-ALLINV = "SortOK NearestOK KNearestOK KMonotone WithinOK Unique BoxOK BoxScanOK"
+ALLINV = "SortOK NearestOK KNearestOK KMonotone WithinOK Unique BoxOK BoxScanOK ModeOK VolumeLemma"
+# k-d trees over kdtree.Points and over user types: Extender / plain Comparable elements in collections that are / are not
+# Bounders; vantage point trees over vptree.Point and a user type
+IMPLS = "impls=kd-points,kd-custom,kd-ext-nb,kd-plain,kd-plain-nb,vp,vp-custom"
 
 
 def box_corners(dim, coords):
@@ -94,20 +101,26 @@ def index_subst(rng, dim, coords, mb, mt, nq, emit, invs):
 def spatial_index(ctx, bins, thorough):
     # R1: theorems of the specification over every history in a bound, all grid queries
     rng = random.Random(ctx.seed)
-    ctx.tlc("spatial/SpatialIndex.tla", "spatial/SpatialIndex_model.cfg", name="R1 SpatialIndex 2d, 9 lattice points, <=3 stored",
-            subst=index_subst(rng, 2, [0, 2, 4], 3, 3, 49 if thorough else 9, False, ALLINV), workers=4)
-    ctx.tlc("spatial/SpatialIndex.tla", "spatial/SpatialIndex_model.cfg", name="R1 SpatialIndex 1d, 4 lattice points, <=%d stored" % (5 if thorough else 4),
-            subst=index_subst(rng, 1, [0, 2, 4, 6], 4, 5 if thorough else 4, 16, False, ALLINV), workers=4)
+    s1 = index_subst(rng, 2, [0, 2, 4], 3, 3, 49 if thorough else 9, False, ALLINV)
+    s2 = index_subst(rng, 1, [0, 2, 4, 6], 4, 5 if thorough else 4, 16, False, ALLINV)
+    thunks = [lambda: ctx.tlc("spatial/SpatialIndex.tla", "spatial/SpatialIndex_model.cfg", subst=s1, workers=2,
+                              name="R1 SpatialIndex 2d, 9 lattice points, <=3 stored"),
+              lambda: ctx.tlc("spatial/SpatialIndex.tla", "spatial/SpatialIndex_model.cfg", subst=s2, workers=2,
+                              name="R1 SpatialIndex 1d, 4 lattice points, <=%d stored" % (5 if thorough else 4))]
+
     # R2: every history, replayed
-    for name, dim, coords, mb, mt, nq, reps, tier in INDEX:
-        if tier == "thorough" and not thorough:
-            continue
+    def one(name, dim, coords, mb, mt, nq, reps):
         rng = random.Random(ctx.seed * 1000 + dim)
         cases = ctx.gen("spatial/SpatialIndex.tla", "spatial/SpatialIndex_model.cfg", name="R2 gen index " + name,
                         subst=index_subst(rng, dim, coords, mb, mt, nq, True, "EmitState"))
         for bn, b in bins.items():
-            ctx.replay(b, "spatial-index", cases, ["impls=kd-points,kd-custom,vp", "reps=%d" % (reps + (1 if thorough else 0))],
+            ctx.replay(b, "spatial-index", cases, [IMPLS, "reps=%d" % (reps + (1 if thorough else 0))],
                        name="R2 replay index %s [%s]" % (name, bn))
+    for name, dim, coords, mb, mt, nq, reps, tier in INDEX:
+        if tier == "thorough" and not thorough:
+            continue
+        thunks.append(lambda a=(name, dim, coords, mb, mt, nq, reps): one(*a))
+    ctx.parallel(thunks, width=3)
 
 
 COMB_INVS = "BinomOK CombOK PermOK PermRankOK CartOK"
@@ -134,6 +147,45 @@ def combin(ctx, bins, thorough):
         cases = ctx.gen("combin/Combin.tla", "combin/Combin_model.cfg", name="R2 gen combin " + fam, subst=sub)
         for bn, b in bins.items():
             ctx.replay(b, "combin", cases, [], name="R2 replay combin %s [%s]" % (fam, bn))
+
+
+BIG_R1 = "BigLawsOK BigPascalOK BigRankOK"
+BIG_FAMS = ["bigbinom", "bignperm", "bigperm", "bigcomb", "bigcart", "genbinom"]
+
+
+def combin_big(ctx, bins, thorough):
+    """CombinBig.tla: counts and index maps beyond 32 bits (digit sequences). R1: the module's arithmetic against TLC's
+    integers, the binomial table, the closed index formulas against Combin.tla's explicit enumerations (small n), and the
+    theorems of the printed large cases; R2: the large cases replayed."""
+    spec, cfg = "combin/CombinBig.tla", "combin/CombinBig_model.cfg"
+    rng = random.Random(ctx.seed * 7 + 5)
+    if thorough:
+        ns, ks, nrandom = list(range(34, 63)), list(range(1, 32)), 12
+    else:
+        ns = sorted({34, 61, 62} | set(rng.sample(range(35, 61), 4)))
+        ks = sorted({1, 2, 16, 27, 28, 31} | set(rng.sample(range(3, 31), 4)))
+        nrandom = 6
+
+    def sub(family, emit, invs, ns=ns):
+        return dict(MAXN=10 if thorough else 8, MAXPN=7 if thorough else 6, MAXPCOUNT=5040 if thorough else 720,
+                    DIMVALS="{1,2,3,4}" if thorough else "{1,2,3}", MAXDIMLEN=4 if thorough else 3,
+                    FAMILY=family, EMIT="TRUE" if emit else "FALSE", INVS=invs, MAXBIGN=67,
+                    PERMNS=enc_set(range(13, 21)), PERMKMIN=13, COMBNS=enc_set(ns), COMBKS=enc_set(ks),
+                    NRANDOM=nrandom, SALT=ctx.seed % 60000)
+
+    thunks = [lambda: ctx.tlc(spec, cfg, name="R1 CombinBig arithmetic laws, binomial table 0..67, closed index forms = enumeration positions",
+                              subst=sub("none", False, BIG_R1), workers=1)]
+    groups = [ns[i::4] for i in range(4)] if thorough else [ns]
+    for gi, g in enumerate(groups):
+        thunks.append(lambda g=g, gi=gi: ctx.tlc(spec, cfg, name="R1 CombinBig theorems of the printed large cases (%d/%d)" % (gi + 1, len(groups)),
+                                                 subst=sub("none", False, "BigCasesOK", g), workers=1, timeout=1700))
+
+    def one(fam):
+        cases = ctx.gen(spec, cfg, name="R2 gen combin " + fam, subst=sub(fam, True, ""))
+        for bn, b in bins.items():
+            ctx.replay(b, "combin-big", cases, [], name="R2 replay combin %s [%s]" % (fam, bn))
+    thunks += [lambda fam=fam: one(fam) for fam in BIG_FAMS]
+    ctx.parallel(thunks, width=4)
 
 
 def keep_trace(ctx, tr, name):
@@ -294,15 +346,23 @@ def run(ctx):
     if thorough:
         bins["noasm"] = ctx.build("noasm")
 
-    spatial_index(ctx, bins, thorough)
-    combin(ctx, bins, thorough)
-    hilbert(ctx, bins, thorough)
-    index_trace(ctx, bins, thorough)
-    barneshut(ctx, bins, thorough)
-    barneshut_hist(ctx, bins, thorough)
+    # independent groups of stages, side by side
+    def enumerations():
+        combin(ctx, bins, thorough)
+        combin_big(ctx, bins, thorough)
+
+    def recorded():
+        hilbert(ctx, bins, thorough)
+        index_trace(ctx, bins, thorough)
+        barneshut(ctx, bins, thorough)
+    ctx.parallel([lambda: spatial_index(ctx, bins, thorough), enumerations, recorded,
+                  lambda: barneshut_hist(ctx, bins, thorough)], width=4)
 
     ctx.assumptions += [
         "TLC/SANY and the CommunityModules Json module are trusted",
+        "the harness decodes base-2^15 digit sequences into int64 (shifts and ors) - trusted",
+        "the user types of the harness (Compare / Distance / Extend / Bounds / Pivot of its Comparable, Extender and "
+        "Interface implementations) are correct user code in the sense of the kdtree / vptree documentation",
         "the harness's operand builders, exact float comparison and multiset comparison are trusted",
         "vptree distances: the harness maps the spec's exact squared integer distance d2 to math.Sqrt(float64(d2)), "
         "the correctly rounded value the implementation must report on lattice points",
@@ -313,7 +373,9 @@ def run(ctx):
         rule="R2 index: one case = one history (bulk construction from <= MaxBuilt lattice points, then insertions, "
              "every sequence in the bound) with the answers of all its queries, replayed on every implementation "
              "variant; non-trivial = at least two stored points. R2 combin: one case = one enumeration (one (n,k) / dims "
-             "vector / Pascal row) with all its index-map checks; non-trivial = more than one object. R2 barneshut: one "
+             "vector / Pascal row) with all its index-map checks; non-trivial = more than one object. R2 combin big families: "
+             "one case = one (n,k) / radix vector / table row with all its chosen objects, both index directions; non-trivial = "
+             "a count beyond 2^31. R2 barneshut: one "
              "case = one particle list with the forces on all its particles and 4 probes; non-trivial = >= 2 particles. "
              "R2 barneshut histories: one case = one maximal history of one Plane / Volume object (Reset, Move, SetMass, Append, "
              "Remove) with the answers of all queries after every step, replayed under 3 ways of altering the slice and 2 ways "
